@@ -33,6 +33,7 @@ RULE = (
     ' Round 11: sends that re-use one Message object with changed fields; `rx_race` (a newer command is sent while the wake that releases the older one is writing).'
     ' Round 9: writes compared in order; re-issued parked commands; report sequences ending empty.'
     ' Round 12: hidden-switch sweep per version pair; registry shapes (254 taken, full, empty, 0/255 present) with id requests.'
+    ' Round 13: version reports that resolve to no protocol; node version texts of the sleepers.'
 )
 ASSUMPTIONS = [
     "gateway.protocol_version = v (public setter) pins each gateway",
